@@ -193,6 +193,8 @@ class Gen:
     def num(self, d):
         sa, r = self.sa, self.r
         if d <= 0 or r.random() < 0.3:
+            if r.random() < 0.12:
+                return self.json_expr(r.choice(["int", "float", "num"]))
             if d > 0 and r.random() < 0.15:
                 return self.subq_scalar(d - 1)
             return self.col("num") if r.random() < 0.7 else sa.literal(r.choice([1, 2, -7, 3.5]))
@@ -216,6 +218,8 @@ class Gen:
     def string(self, d):
         sa, r = self.sa, self.r
         if d <= 0 or r.random() < 0.3:
+            if r.random() < 0.12:
+                return self.json_expr("str")
             return self.col("str") if r.random() < 0.7 else sa.literal(r.choice(["a", "b%", "_", "it's"]))
         k = r.randint(0, 8)
         a, b = self.string(d - 1), self.string(d - 1)
@@ -257,7 +261,7 @@ class Gen:
     def boolean(self, d):
         sa, r = self.sa, self.r
         if d <= 0:
-            return self.col("num") > 1
+            return self.col("num") > 1 if r.random() < 0.85 else r.choice([self.json_expr("bool"), self.json_expr("raw") == sa.literal("v"), self.json_expr("int") > 3, self.json_expr("json").is_not(None)])
         k = r.randint(0, 22)
         a, b = self.num(d - 1), self.num(d - 1)
         s, t = self.string(d - 1), self.string(d - 1)
@@ -340,8 +344,74 @@ class Gen:
         if k == 1: return self.string(d)
         if k == 2: return self.boolean(d)
         if k == 3: return self.agg(d)
-        if k == 4: return self.lit()
+        if k == 4: return self.lit() if self.r.random() < 0.6 else self.json_expr()
         return self.sa.extract(self.r.choice(["year", "month", "dow", "epoch", "quarter", "bogus"]), self.t1.c.ts)
+
+    def with_froms(self, froms, fn):
+        """generate an expression over other columns (a DDL table's own columns)"""
+        saved = self.froms
+        self.froms = froms
+        try:
+            return fn()
+        finally:
+            self.froms = saved
+
+    def json_col(self):
+        cands = [c for f in self.froms for c in f.c if isinstance(c.type, self.sa.JSON)]
+        return self.r.choice(cands) if cands else self.t1.c.data
+
+    def json_expr(self, kind=None):
+        """JSON index / path operator family with every typed accessor"""
+        sa, r = self.sa, self.r
+        e = self.json_col()[r.choice(["k", 3, 0, ("a", "b"), ("a", 2), "with space", ("x",)])]
+        if r.random() < 0.15:
+            e = e["nested"]
+        kind = kind or r.choice(["int", "str", "bool", "float", "json", "raw", "num"])
+        if kind == "int": return e.as_integer()
+        if kind == "str": return e.as_string()
+        if kind == "bool": return e.as_boolean()
+        if kind == "float": return e.as_float()
+        if kind == "num": return e.as_numeric(10, 2)
+        if kind == "json": return e.as_json()
+        return e
+
+    def shared_cte(self, d):
+        """one CTE (plain / recursive-restated x nesting or not) referenced from 1-3 SIBLING sub-statements
+        of different kinds, under SELECT or DML"""
+        sa, r = self.sa, self.r
+        recursive, nesting = r.random() < 0.6, r.random() < 0.6
+        n = sa.select(self.t1.c.id.label("a")).where(self.t1.c.id > 5).cte("n", nesting=nesting, recursive=recursive)
+        if recursive and r.random() < 0.85:
+            n = (n.union_all if r.random() < 0.7 else n.union)(sa.select(n.c.a + 1).where(n.c.a < 10))
+        if r.random() < 0.2:
+            n = n.alias("n2")
+        stmt = sa.select(self.t1.c.id, self.t1.c.name)
+        where = []
+        for _ in range(r.choice([1, 2, 2, 2, 3])):
+            k = r.randint(0, 4)
+            if k == 0:
+                where.append(r.choice([self.t1.c.id, self.t1.c.val]).in_(sa.select(n.c.a)))
+            elif k == 1:
+                stmt = stmt.add_columns(sa.select(sa.func.max(n.c.a)).scalar_subquery().label("m%d" % len(where)))
+            elif k == 2:
+                sub = sa.select(n.c.a).where(n.c.a > 1).subquery("d%d" % r.randint(0, 99))
+                stmt = stmt.join(sub, sub.c.a == self.t1.c.id, isouter=r.random() < 0.5)
+            elif k == 3:
+                where.append(sa.exists(sa.select(n.c.a).where(n.c.a == self.t1.c.id)))
+            else:
+                where.append(self.t1.c.id > sa.select(sa.func.min(n.c.a)).scalar_subquery())
+        for w in where:
+            stmt = stmt.where(w)
+        o = r.random()
+        if o < 0.6:
+            return stmt
+        if o < 0.7 and where:
+            return sa.delete(self.t1).where(*where)
+        if o < 0.8 and where:
+            return sa.update(self.t1).values(name="x").where(*where)
+        if o < 0.9:
+            return sa.insert(self.t2).from_select(["id", "s"], stmt.with_only_columns(self.t1.c.id, self.t1.c.name))
+        return sa.union_all(stmt.with_only_columns(self.t1.c.id), sa.select(n.c.a))
 
     # -- selects
     def select(self, d, simple=False):
@@ -610,6 +680,29 @@ class Gen:
             cols.append(sa.Column(r.choice(["c%d" % i, "Mixed%d" % i, "select%d" % i if i else "select", "with space %d" % i]), ty, primary_key=(i == 0 and r.random() < 0.7), nullable=r.choice([True, False, None]) if not (i == 0) else True, **kw))
         if not any(c.name == "id" for c in cols):
             cols.append(sa.Column("id", sa.Integer))
+        # columns every generated DDL expression can draw on (operator families x DDL embedding)
+        cols += [sa.Column("jdata", sa.JSON), sa.Column("sname", sa.String(30)), sa.Column("dts", sa.DateTime)]
+        adhoc = sa.table("ddlsrc", sa.column("id", sa.Integer), sa.column("jdata", sa.JSON), sa.column("sname", sa.String(30)), sa.column("dts", sa.DateTime))
+
+        def ddl_expr(kind):
+            def mk():
+                if kind == "bool":
+                    return self.boolean(r.choice([1, 1, 2]))
+                if kind == "num":
+                    return self.num(r.choice([1, 2]))
+                return self.any_expr(1)
+            return self.with_froms([adhoc], mk)
+
+        if r.random() < 0.3:
+            try:
+                cols.append(sa.Column("gen_c", sa.Integer, sa.Computed(ddl_expr("num"), persisted=r.choice([None, True, False]))))
+            except Exception:
+                pass
+        if r.random() < 0.15:
+            try:
+                cols.append(sa.Column("dflt_c", sa.Integer, server_default=ddl_expr("num")))
+            except Exception:
+                pass
         extra = []
         names = [c.name for c in cols]
         if r.random() < 0.3:
@@ -617,6 +710,11 @@ class Gen:
                                                  deferrable=r.choice([None, True, False]), initially=r.choice([None, "DEFERRED"]), match=r.choice([None, "FULL"]), use_alter=r.random() < 0.2))
         if r.random() < 0.25:
             extra.append(sa.CheckConstraint(r.choice(["id > 0", sa.text("id < 10"), sa.column("id") > 5]), name=r.choice([None, "ck1", "ck with space"])))
+        if r.random() < 0.3:
+            try:
+                extra.append(sa.CheckConstraint(ddl_expr("bool"), name=r.choice([None, "ck_gen"])))
+            except Exception:
+                pass
         if r.random() < 0.2:
             extra.append(sa.UniqueConstraint(*r.sample(names, min(2, len(names))), name=r.choice([None, "uq1"]), deferrable=r.choice([None, True])))
 
@@ -676,6 +774,16 @@ class Gen:
                             {"mssql_include": ["id"]}, {"oracle_bitmap": True}, {"postgresql_include": ["id"]}, {"postgresql_concurrently": True}, {"postgresql_ops": {"id": "int4_ops"}}, {"mssql_where": t.c.id > 1}, {"mysql_using": "hash"},
                             {"postgresql_nulls_not_distinct": True}, {"mariadb_length": {"id": 3}}])
             target = r.choice([[t.c.id], [t.c.id, cols[0]], [sa.func.lower(sa.cast(t.c.id, sa.String))], [t.c.id.desc()], [sa.text("id")]])
+            if r.random() < 0.4:
+                # functional index over a generated expression of the table's own columns
+                try:
+                    target = [self.with_froms([t], lambda: self.any_expr(1) if r.random() < 0.5 else self.json_expr())] + ([t.c.id] if r.random() < 0.3 else [])
+                    if "postgresql_where" in ikw or "sqlite_where" in ikw or "mssql_where" in ikw:
+                        wkey = [x for x in ikw if x.endswith("_where")][0]
+                        ikw = dict(ikw)
+                        ikw[wkey] = self.with_froms([t], lambda: self.boolean(1))
+                except Exception:
+                    target = [t.c.id]
             try:
                 ix = sa.Index(r.choice(["ix1", "Mixed Ix", None]), *target, **ikw)
             except Exception:
@@ -719,7 +827,7 @@ class Gen:
         if k < 0.5:
             return "compound", self.compound(d)
         if k < 0.6:
-            return "cte", self.cte(d)
+            return "cte", (self.cte(d) if self.r.random() < 0.6 else self.shared_cte(d))
         if k < 0.8:
             return "dml", self.dml(d, dialect_name)
         return "ddl", self.ddl(d)
@@ -856,7 +964,7 @@ def run(ctx, deep=False):
     ctx.rule = (
         "seeded generator of Core constructs (selects: joins incl. lateral/full, subqueries, VALUES, TABLESAMPLE, GROUP BY/ROLLUP, windows with rows/range/groups, FILTER, WITHIN GROUP, "
         "LIMIT/OFFSET/FETCH variants, FOR UPDATE, hints, schema_translate_map; compound selects; recursive / nesting / DML CTEs; INSERT/UPDATE/DELETE incl. multi-values, from_select, "
-        "ordered_values, multi-table, RETURNING, sqlite/postgresql/mysql upserts; DDL: CreateTable over 46 types with Identity/Computed/Sequence/defaults/comments/dialect options, "
+        "ordered_values, multi-table, RETURNING, sqlite/postgresql/mysql upserts; DDL: CreateTable over 46 types with Identity/Computed/Sequence/defaults/comments/dialect options and generated CHECK / Computed / server_default / functional-index expressions (incl. the JSON index/path operator family); CTEs (plain/recursive x nesting) shared by 1-3 sibling sub-statements, "
         "indexes with dialect options, constraints, sequences, schemas, comments, views, CTAS, DDL()) x 6 dialects x option variants (server versions, paramstyles, literal_binds, render_postcompile); "
         "a case is non-trivial when the construct compiled or raised (i.e. was accepted by the constructors)"
     )
